@@ -413,7 +413,12 @@ class Parser:
             return self.token_error('Cannot use {} as a value.')
 
         if dest is OpCode.PUSH:
-            code_gen.push(value)
+            if move_inst is OpCode.MOVEQ:
+                # A constant goes onto the stack as it is; push() would take
+                # a string for the name of a variable.
+                code_gen.add_instruction(OpCode.PUSHQ, value)
+            else:
+                code_gen.push(value)
         elif move_inst is OpCode.MOVEQ or value is not dest:
             # Only a variable or register moved onto itself needs no code.
             code_gen.add_instruction(move_inst, value, dest)
